@@ -111,6 +111,14 @@ fn main() {
                     st.case(&format!("automaton states={} {}", a.nstates, a.body), "ok");
                     st.case("validate", "valid");
                     st.case("enccheck", "same");
+                    if !tables.recovery {
+                        // V5 (reachable nonterminals productive, no empty item set) + V6 (start reduce only on EOF):
+                        // the extra hypotheses of the C04/C05 sentence-prefix theorems
+                        let start_nt: usize = a.user_start[1..].parse().unwrap();
+                        let reduced = cfg.reduced_from(start_nt);
+                        st.case("validate2", if reduced { "valid" } else { "invalid V5-productive" });
+                        h.hit(if reduced { "reduced-grammar" } else { "unproductive-grammar" });
+                    }
                     h.hit("certificates");
                 }
                 h.hit(&format!("state_type:{}", tables.state_type));
